@@ -2,6 +2,7 @@ import LcmModel.Solve
 import LcmModel.Sim
 import LcmModel.Diag
 import LcmModel.Spec
+import LcmModel.WellFormed
 import LcmModel.Keys
 import LcmModel.Validate
 import LcmModel.FuncRep
@@ -437,6 +438,13 @@ def handle (j : Json) : Except String Json := do
     let ids ← j.getObjValAs? (Array Nat) "seg_ids"
     let num ← j.getObjValAs? Nat "num"
     return Json.mkObj [("ok", floatTensorJson (segmentLogSumExpF a ids.toList num))]
+  | "wf" =>
+    let m ← parseModel (← j.getObjVal? "model")
+    let r := wfReport m
+    return Json.mkObj [("ok", Json.mkObj [("all", toJson r.all), ("variable_names_distinct", toJson r.variableNamesDistinct),
+      ("function_names_distinct", toJson r.functionNamesDistinct), ("next_keys_distinct", toJson r.nextKeysDistinct),
+      ("no_filter_without_restricted_variable", toJson r.noFilterWithoutRestrictedVariable),
+      ("no_function_takes_utility", toJson r.noFunctionTakesUtility), ("no_restriction_named_utility", toJson r.noRestrictionNamedUtility)])]
   | "variable_info" =>
     let m ← parseModel (← j.getObjVal? "model")
     return Json.mkObj [("ok", toJson ((variableInfo m).map (·.name)))]
